@@ -5886,13 +5886,6 @@ func getTimeRange(op Token, rhs Expr, valuer Valuer) (TimeRange, error) {
 	var value time.Time
 	switch lit := rhs.(type) {
 	case *TimeLiteral:
-		if lit.Val.After(time.Unix(0, MaxTime)) {
-			return TimeRange{}, fmt.Errorf("time %s overflows time literal", lit.Val.Format(time.RFC3339))
-		} else if lit.Val.Before(time.Unix(0, MinTime+1)) {
-			// The minimum allowable time literal is one greater than the minimum time because the minimum time
-			// is a sentinel value only used internally.
-			return TimeRange{}, fmt.Errorf("time %s underflows time literal", lit.Val.Format(time.RFC3339))
-		}
 		value = lit.Val
 	case *DurationLiteral:
 		value = time.Unix(0, int64(lit.Val)).UTC()
@@ -5902,6 +5895,17 @@ func getTimeRange(op Token, rhs Expr, valuer Valuer) (TimeRange, error) {
 		value = time.Unix(0, lit.Val).UTC()
 	default:
 		return TimeRange{}, fmt.Errorf("invalid operation: time and %T are not compatible", lit)
+	}
+
+	// The bound must be a representable timestamp whatever kind of literal
+	// it was written as: a strict bound is moved by one nanosecond below,
+	// which would wrap around for a value outside this range.
+	if value.After(time.Unix(0, MaxTime)) {
+		return TimeRange{}, fmt.Errorf("time %s overflows time literal", value.Format(time.RFC3339))
+	} else if value.Before(time.Unix(0, MinTime+1)) {
+		// The minimum allowable time literal is one greater than the minimum time because the minimum time
+		// is a sentinel value only used internally.
+		return TimeRange{}, fmt.Errorf("time %s underflows time literal", value.Format(time.RFC3339))
 	}
 
 	timeRange := TimeRange{}
